@@ -1135,6 +1135,16 @@ func (st *State) havocTargets(env *SpecEnv, mods []*Clause, old *Snapshot) {
 				st.noteWrite(n, t.ref)
 			}
 		}
+		all := false
+		for _, t := range h.targets {
+			if t.kind == "allelems" {
+				all = true
+			}
+		}
+		if all {
+			st.noteUnknownWrite(n)
+			continue
+		}
 		if h.two {
 			var in []string
 			for _, t := range h.targets {
@@ -1205,6 +1215,37 @@ func (st *State) resolveTarget(env *SpecEnv, e *SNode, add func(name, sort strin
 		// membership of reference g_a in s: some slot of (old) s holds it
 		cond := fmt.Sprintf("(not (forall ((g_mk Int)) (=> (and (<= %s g_mk) (< g_mk %s)) (not (= (select (select %s %s) g_mk) g_a)))))", sv.off(), sAdd(sv.off(), sv.length()), hel, sv.arr())
 		add(hname, ptrSort(comps[0]), false, target{kind: "fieldset", cond: cond})
+		return
+	}
+	if e.Op == "call" && (e.Text == "anyof" || e.Text == "anyelems") && len(e.Args) == 1 && e.Args[0].Op == "sel" && e.Args[0].Args[0].Op == "id" {
+		// anyof(T.f): field f of every T object; anyelems(T.f): every cell of the element heap of the slice field f
+		tn, fn := e.Args[0].Args[0].Text, e.Args[0].Text
+		var structT types.Type
+		if env.pkg != nil {
+			if o := env.pkg.Types.Scope().Lookup(tn); o != nil {
+				structT = o.Type()
+			}
+		}
+		if structT == nil {
+			env.fail("%s: unknown type %s", e.Text, tn)
+		}
+		ft, comps, _ := fieldComps(structT, fn)
+		if ft == nil {
+			env.fail("%s: no field %s in %s", e.Text, fn, tn)
+		}
+		if e.Text == "anyof" {
+			for _, c := range comps {
+				add(ptrHeapName(structT, c), ptrSort(c), false, target{kind: "fieldset", cond: "true"})
+			}
+			return
+		}
+		if classify(ft) != tcSlice {
+			env.fail("anyelems needs a slice field")
+		}
+		et := sliceElemType(ft)
+		for _, c := range flatComps(et) {
+			add(elemHeapName(et, c), elemSort(c), true, target{kind: "allelems", arr: "(- 1)", lo: "0", hi: "0"})
+		}
 		return
 	}
 	switch e.Op {
